@@ -392,6 +392,20 @@ func main() {
 		o := cuworld.TimingOpts{Resident: sl.g.NumWG, Delays: []int{9, 60}, SlowScalar: sl.s, SlowVector: sl.v, SlowInst: sl.i, Horizon: 60000}
 		scs = append(scs, harness.Scenario{Name: fmt.Sprintf("%s/wg%dx%d/slow-memory(s%d,v%d,i%d)/resident%d", sl.k, sl.g.WGSize, sl.g.NumWG, sl.s, sl.v, sl.i, sl.g.NumWG), Bound: b, Body: body(ks[sl.k], sl.g, o)})
 	}
+	// a dispatcher that is slow to take completions: many small work-groups finish while the CU's 4-entry port
+	// towards it is full
+	for _, sl := range []struct {
+		k   string
+		g   geo
+		res int
+	}{{"k8_store_then_endpgm", geo{64, 12}, 8}, {"k8_store_then_endpgm", geo{64, 16}, 4}, {"k1_lds_barrier", geo{128, 10}, 5}, {"k4_waitcnt_vm", geo{64, 10}, 10}} {
+		o := cuworld.TimingOpts{Resident: sl.res, Delays: []int{9, 60}, SlowACE: 400, Horizon: 60000}
+		b := 0
+		if r.Thorough() {
+			b = 1
+		}
+		scs = append(scs, harness.Scenario{Name: fmt.Sprintf("%s/wg%dx%d/slow-dispatcher/resident%d", sl.k, sl.g.WGSize, sl.g.NumWG, sl.res), Bound: b, Body: body(ks[sl.k], sl.g, o)})
+	}
 	// launch history: a kernel that declared many more registers ran on the CU before (state kept across kernels)
 	for _, n := range []string{"k1_lds_barrier", "k6_early_exit_before_barrier", "k7_late_exit_without_barrier", "k9_exit_with_pending_store_while_others_wait", "k4_waitcnt_vm", "k12_register_signature_survives_neighbour_exit"} {
 		for _, g := range []geo{{128, 1}, {256, 1}, {128, 2}} {
